@@ -142,8 +142,9 @@ static void drv_apply(const vop_t *op, jb_t *res)
         cstl_array_t stray; int f = a[0], pos = a[1];
         cstl_array_t *a1, *a2 = NULL;
         memcpy(&stray, &A[a[2]], sizeof stray);
-        a1 = pos == 1 ? &stray : &A[a[3]];
-        if (fn_nargs(f) > 1) a2 = pos == 2 ? &stray : &A[a[3]];
+        /* pos 3: the same stray copy in both argument positions (slicing a stray copy in place, say) */
+        a1 = pos != 2 ? &stray : &A[a[3]];
+        if (fn_nargs(f) > 1) a2 = pos >= 2 ? &stray : &A[a[3]];
         a_begin(0); call_fn(f, a1, a2); a_end();
         jb_puts(res, ",\"ret\":0");
         break;
@@ -235,6 +236,7 @@ static int drv_enum(vop_t *ops, int max)
             if (fn_nargs(f) > 1 && y == x) continue;
             ADD(9, f, pos, x, y);
         }
+    if (STRAY) for (f = 1; f <= NFN; f++) if (fn_nargs(f) > 1) for (x = 1; x <= NA; x++) ADD(9, f, 3, x, x);
     return no;
 }
 static int tsmall(unsigned long (*rnd)(void), int hi) { return (rnd() % 12 == 0) ? 1000 + (int)(rnd() % 2) : (int)(rnd() % (unsigned)(hi + 1)); }
